@@ -10,6 +10,7 @@ Nothing is compared here; the arrays go back to the harness, which writes them i
 from __future__ import annotations
 
 import hashlib
+import json
 import math
 
 import numpy as np
@@ -18,16 +19,20 @@ FUNCS = {
     "illumination": "pyxel.models.photon_collection.illumination",
     "load_image": "pyxel.models.photon_collection.load_image",
     "stripe_pattern": "pyxel.models.photon_collection.stripe_pattern",
+    "usaf_illumination": "pyxel.models.photon_collection.usaf_illumination",
+    "scene_collection": "pyxel.models.photon_collection.simple_collection",
     "simple_conversion": "pyxel.models.charge_generation.simple_conversion",
     "qe_map": "pyxel.models.charge_generation.conversion_with_qe_map",
     "load_charge": "pyxel.models.charge_generation.load_charge",
     "dark_current": "pyxel.models.charge_generation.dark_current",
+    "dark_current_rule07": "pyxel.models.charge_generation.dark_current_rule07",
     "simple_collection": "pyxel.models.charge_collection.simple_collection",
 }
 GROUP = {
     "illumination": "photon_collection", "load_image": "photon_collection", "stripe_pattern": "photon_collection",
+    "usaf_illumination": "photon_collection",
     "simple_conversion": "charge_generation", "qe_map": "charge_generation", "load_charge": "charge_generation",
-    "dark_current": "charge_generation", "simple_collection": "charge_collection",
+    "dark_current": "charge_generation", "dark_current_rule07": "charge_generation", "simple_collection": "charge_collection",
 }
 
 
@@ -42,15 +47,25 @@ def hx(a):
 def make_det(d):
     from harness import pyx
 
+    char = dict(quantum_efficiency=fx(d.get("qe", 1.0)))
+    # optional read-out chain parameters (they enter load_image's ADU -> photon conversion through system_gain)
+    if "adc_bits" in d:
+        char["adc_bit_resolution"] = int(d["adc_bits"])
+    if "ctv" in d:
+        char["charge_to_volt_conversion"] = fx(d["ctv"])
+    if "preamp" in d:
+        char["pre_amplification"] = fx(d["preamp"])
+    if "vrange" in d:
+        char["adc_voltage_range"] = (fx(d["vrange"][0]), fx(d["vrange"][1]))
     det = pyx.make_detector(kind=d.get("kind", "ccd"), rows=d["rows"], cols=d["cols"],
-                            pixel_vert_size=fx(d.get("pv", 10.0)), pixel_horz_size=fx(d.get("ph", 10.0)),
-                            quantum_efficiency=fx(d.get("qe", 1.0)))
+                            pixel_vert_size=fx(d.get("pv", 10.0)), pixel_horz_size=fx(d.get("ph", 10.0)), **char)
     det.environment.temperature = fx(d.get("temperature", 200.0))
     return det
 
 
 def data_file(m, shape, tag):
     """Write the model's input array to a uniquely named file in the cwd (lru_cache keys on the name)."""
+    shape = tuple(m["data_shape"]) if m.get("data_shape") else shape   # the file may be smaller/larger than the detector
     arr = np.array([fx(v) for v in m["data"]], dtype=float).reshape(shape)
     h = hashlib.sha1(arr.tobytes() + str(shape).encode()).hexdigest()[:16]
     fmt = m.get("fmt", "npy")
@@ -63,16 +78,63 @@ def data_file(m, shape, tag):
     return name
 
 
-def _dc_rate(det, fom):
-    """The real dark_current model's increment for a unit time step (clock time deliberately != 1)."""
-    from pyxel.models.charge_generation import dark_current
+def png_file(m, tag):
+    """The image usaf_illumination would download, as a local 8-bit PNG; pooch.retrieve is pointed at it."""
+    from PIL import Image
 
+    shape = tuple(m["data_shape"])
+    arr = np.array([int(fx(v)) for v in m["data"]], dtype=np.uint8).reshape(shape)
+    name = f"c17_{tag}_{hashlib.sha1(arr.tobytes() + str(shape).encode()).hexdigest()[:16]}.png"
+    Image.fromarray(arr, mode="L").save(name)
+    import pooch
+
+    pooch.retrieve = lambda *a, _name=name, **k: _name     # no network in the sandbox; the model code is unchanged
+    return name
+
+
+SCENE = {
+    "coords": {"ref": {"dims": ("ref",), "attrs": {}, "data": [0, 1, 2]},
+               "wavelength": {"dims": ("wavelength",), "attrs": {"units": "nm"}, "data": [336.0, 338.0, 340.0, 342.0]}},
+    "attrs": {"right_ascension": "57.1829668 deg", "declination": "23.84371349 deg", "fov_radius": "0.5 deg"},
+    "dims": {"ref": 3, "wavelength": 4},
+    "data_vars": {
+        "x": {"dims": ("ref",), "attrs": {"units": "arcsec"},
+              "data": [205732.81147230256, 205832.50867371075, 206010.7213446728]},
+        "y": {"dims": ("ref",), "attrs": {"units": "arcsec"},
+              "data": [85748.89015925185, 85802.09354969644, 85961.12201291585]},
+        "weight": {"dims": ("ref",), "attrs": {"units": "mag"}, "data": [11.5, 14.0, 15.25]},
+        "flux": {"dims": ("ref", "wavelength"), "attrs": {"units": "ph / (cm2 nm s)"},
+                 "data": [[0.0375, 0.04125, 0.04, 0.03625], [0.0115, 0.01025, 0.00975, 0.00985],
+                          [0.00192, 0.00179, 0.00167, 0.0015]]},
+    },
+}
+
+
+def add_scene(det, m):
+    import xarray as xr
+
+    d = json.loads(json.dumps(SCENE))
+    scale = fx(m.get("flux_scale", 1.0))
+    d["data_vars"]["flux"]["data"] = [[v * scale for v in row] for row in d["data_vars"]["flux"]["data"]]
+    det.scene.add_source(xr.Dataset.from_dict(d))
+
+
+def _unit_rate(det, name, kw):
+    """The real model's increment for a unit time step (clock time deliberately != 1)."""
     det.empty()
     det.set_readout(times=[1.0], start_time=0.0)
     det.readout_properties.time = 7.0
     det.readout_properties.time_step = 1.0
-    dark_current(det, figure_of_merit=fom, temporal_noise=False)
+    _func(name)(det, **kw)
     return np.array(det.charge.array, dtype=float)
+
+
+def dc_kwargs(m, fom):
+    kw = dict(figure_of_merit=fom, temporal_noise=False)
+    if m.get("band_gap") is not None:
+        kw["band_gap"] = fx(m["band_gap"])
+        kw["band_gap_room_temperature"] = fx(m["band_gap_rt"])
+    return kw
 
 
 def calibrate_dc(det_spec, m):
@@ -83,10 +145,10 @@ def calibrate_dc(det_spec, m):
     det = make_det(det_spec)
     if "fom" in m:
         fom = fx(m["fom"])
-        return fom, _dc_rate(det, fom)
-    base = float(_dc_rate(det, 1.0).reshape(-1)[0])
+        return fom, _unit_rate(det, "dark_current", dc_kwargs(m, fom))
+    base = float(_unit_rate(det, "dark_current", dc_kwargs(m, 1.0)).reshape(-1)[0])
     if not (base > 0 and math.isfinite(base)):
-        return 1.0, _dc_rate(det, 1.0)
+        return 1.0, _unit_rate(det, "dark_current", dc_kwargs(m, 1.0))
     for target in [fx(t) for t in m["targets"]]:
         f0 = target / base
         cands, up, dn = [f0], f0, f0
@@ -94,10 +156,27 @@ def calibrate_dc(det_spec, m):
             up, dn = math.nextafter(up, math.inf), math.nextafter(dn, -math.inf)
             cands += [up, dn]
         for f in cands:
-            a = _dc_rate(det, f)
+            a = _unit_rate(det, "dark_current", dc_kwargs(m, f))
             if (a == target).all():
                 return f, a
-    return 1.0, _dc_rate(det, 1.0)
+    return 1.0, _unit_rate(det, "dark_current", dc_kwargs(m, 1.0))
+
+
+def placed(m, shape, tag, fname):
+    """kwargs position/align of a file-loading model + what the implementation's own placement helper
+    returns for them (the property is about time, not about cropping)."""
+    kw, aux = {}, {}
+    if m.get("position") is not None:
+        kw["position"] = (int(m["position"][0]), int(m["position"][1]))
+    if m.get("align") is not None:
+        kw["align"] = m["align"]
+    if kw or m.get("data_shape"):
+        from pyxel.util import load_cropped_and_aligned_image
+
+        py, px = kw.get("position", (0, 0))
+        aux["image"] = hx(load_cropped_and_aligned_image(shape=shape, filename=fname, position_x=px, position_y=py,
+                                                         align=kw.get("align")))
+    return kw, aux
 
 
 def build_args(det_spec, m, tag):
@@ -119,17 +198,50 @@ def build_args(det_spec, m, tag):
             kw["time_scale"] = fx(m["time_scale"])
     elif k == "load_image":
         kw = dict(image_file=data_file(m, shape, tag))
+        pkw, paux = placed(m, shape, tag, kw["image_file"])
+        kw.update(pkw)
+        aux.update(paux)
         if "multiplier" in m:
             kw["multiplier"] = fx(m["multiplier"])
         if "time_scale" in m:
             kw["time_scale"] = fx(m["time_scale"])
+        if m.get("convert"):
+            kw["convert_to_photons"] = True
+            kw["bit_resolution"] = int(m["bit_resolution"])
+            cht = make_det(det_spec).characteristics
+            aux["system_gain"] = float(cht.system_gain).hex()
+            aux["adc_bits"] = int(cht.adc_bit_resolution)
+    elif k == "usaf_illumination":
+        fname = png_file(m, tag)
+        kw = {}
+        pkw, paux = placed(dict(m, data_shape=m["data_shape"]), shape, tag, fname)
+        kw.update(pkw)
+        aux.update(paux)
+        if "multiplier" in m:
+            kw["multiplier"] = fx(m["multiplier"])
+        if "time_scale" in m:
+            kw["time_scale"] = fx(m["time_scale"])
+        if m.get("convert"):
+            kw["convert_to_photons"] = True
+            kw["bit_resolution"] = int(m["bit_resolution"])
+            cht = make_det(det_spec).characteristics
+            aux["system_gain"] = float(cht.system_gain).hex()
+            aux["adc_bits"] = int(cht.adc_bit_resolution)
+    elif k == "scene_collection":
+        kw = dict(aperture=fx(m["aperture"]), filter_band=(336, 342), resolution=2, pixel_scale=fx(m["pixel_scale"]),
+                  integrate_wavelength=bool(m.get("integrate", True)))
     elif k == "stripe_pattern":
-        kw = dict(level=fx(m["level"]), period=int(m["period"]), startwith=int(m.get("startwith", 0)), angle=0)
+        kw = dict(level=fx(m["level"]), period=int(m["period"]), startwith=int(m.get("startwith", 0)),
+                  angle=int(m.get("angle", 0)))
         if "time_scale" in m:
             kw["time_scale"] = fx(m["time_scale"])
         from pyxel.models.photon_collection.stripe_pattern import compute_pattern
-        aux["pattern"] = hx(compute_pattern(detector_shape=shape, period=kw["period"], level=1.0, angle=0,
-                                            start_with=kw["startwith"]))
+        if kw["angle"] == 0:
+            aux["pattern"] = hx(compute_pattern(detector_shape=shape, period=kw["period"], level=1.0, angle=0,
+                                                start_with=kw["startwith"]))
+        else:   # a rotated pattern is interpolated: take the implementation's own pattern at the actual level
+            aux["pattern_level"] = hx(compute_pattern(detector_shape=shape, period=kw["period"], level=kw["level"],
+                                                      angle=kw["angle"], start_with=kw["startwith"]))
     elif k == "simple_conversion":
         kw = dict(binomial_sampling=False)
         if m.get("qe") is not None:
@@ -138,13 +250,21 @@ def build_args(det_spec, m, tag):
         kw = dict(filename=data_file(m, shape, tag), binomial_sampling=False)
     elif k == "load_charge":
         kw = dict(filename=data_file(m, shape, tag))
+        pkw, paux = placed(m, shape, tag, kw["filename"])
+        kw.update(pkw)
+        aux.update(paux)
         if "time_scale" in m:
             kw["time_scale"] = fx(m["time_scale"])
     elif k == "dark_current":
         fom, rate = calibrate_dc(det_spec, m)
-        kw = dict(figure_of_merit=fom, temporal_noise=False)
+        kw = dc_kwargs(m, fom)
         aux["fom"] = float(fom).hex()
         aux["rate"] = hx(rate)
+    elif k == "dark_current_rule07":
+        kw = dict(temporal_noise=False)
+        if m.get("cutoff") is not None:
+            kw["cutoff_wavelength"] = fx(m["cutoff"])
+        aux["rate"] = hx(_unit_rate(make_det(det_spec), k, kw))
     elif k == "simple_collection":
         kw = {}
     else:
@@ -164,10 +284,55 @@ def _state(det):
     return dict(photon=None if ph is None else hx(ph), charge=hx(det.charge.array), pixel=hx(det.pixel.array))
 
 
+def _nonzero_only(states, bucket):
+    """Keep only the elements of `bucket` that are non-zero for at least one step (large sparse arrays)."""
+    arrs = [np.array([fx(v) for v in st[bucket]]) for st in states if st.get(bucket) is not None]
+    if len(arrs) != len(states) or len({a.size for a in arrs}) != 1:
+        return
+    keep = np.flatnonzero(np.any(np.stack(arrs) != 0.0, axis=0))
+    for st in states:
+        st[bucket] = [st[bucket][i] for i in keep]
+        st["kept"] = int(keep.size)
+
+
+def det_vars(det):
+    """Numeric attributes of the step-independent parts of the detector (values of the translator's
+    `detector.geometry.x` / `detector.characteristics.x` / `detector.environment.x` variables)."""
+    out = {}
+    for root in ("geometry", "characteristics", "environment"):
+        obj = getattr(det, root, None)
+        for name in dir(obj):
+            if name.startswith("_") or name == "numbytes":
+                continue
+            try:
+                v = getattr(obj, name)
+            except Exception:  # noqa: BLE001
+                continue
+            if isinstance(v, (bool, np.bool_)) or not isinstance(v, (int, float, np.integer, np.floating)):
+                continue
+            if math.isfinite(float(v)):
+                out[f"detector.{root}.{name}"] = float(v).hex()
+    return out
+
+
+def json_kw(kw):
+    out = {}
+    for k, v in kw.items():
+        if isinstance(v, (bool, str, int)) or v is None:
+            out[k] = v
+        elif isinstance(v, float):
+            out[k] = {"hex": v.hex()}
+        elif isinstance(v, (list, tuple)):
+            out[k] = [int(x) if isinstance(x, (int, np.integer)) else x for x in v]
+    return out
+
+
 def handle_call(p):
     det_spec, m = p["det"], p["model"]
     shape = (det_spec["rows"], det_spec["cols"])
     kw, aux = build_args(det_spec, m, "call")
+    aux["kw"] = json_kw(kw)
+    aux["detvars"] = det_vars(make_det(det_spec))
     f = _func(m["m"])
     out = dict(aux=aux, steps=[])
     pre = p.get("prefill")
@@ -183,6 +348,8 @@ def handle_call(p):
             det.readout_properties.time = fx(p.get("time", 7.0))
             det.readout_properties.time_step = step
             det.readout_properties.pipeline_count = 3
+            if m["m"] == "scene_collection":
+                add_scene(det, m)
             if mode == "prefilled":
                 if pre.get("photon") is not None:
                     det.photon.array = np.array([fx(v) for v in pre["photon"]], dtype=float).reshape(shape)
@@ -196,6 +363,8 @@ def handle_call(p):
             except Exception as ex:  # noqa: BLE001
                 rec[mode] = {"raise": type(ex).__name__, "msg": str(ex)[:200]}
         out["steps"].append(rec)
+    if m["m"] == "scene_collection" and all("empty" in r and "raise" not in r["empty"] for r in out["steps"]):
+        _nonzero_only([r["empty"] for r in out["steps"]], "photon")
     return out
 
 
@@ -214,8 +383,20 @@ def handle_exposure(p):
     try:
         ro = pyx.make_readout(times=[fx(t) for t in p["times"]], start_time=fx(p["start"]),
                               non_destructive=bool(p["nd"]))
-        res = pyx.run_exposure(det, pyx.make_pipeline(spec), ro)
-        px = np.asarray(res["bucket"]["pixel"].values, dtype=float)
+        if p.get("entry", "run_mode") == "exposure_mode":
+            # the deprecated public entry point has its own copy of the readout loop (also used by calibration)
+            import warnings
+
+            import pyxel
+            from pyxel.exposure import Exposure
+
+            with warnings.catch_warnings():
+                warnings.simplefilter("ignore")
+                ds = pyxel.exposure_mode(exposure=Exposure(readout=ro), detector=det, pipeline=pyx.make_pipeline(spec))
+            px = np.asarray(ds["pixel"].values, dtype=float)
+        else:
+            res = pyx.run_exposure(det, pyx.make_pipeline(spec), ro)
+            px = np.asarray(res["bucket"]["pixel"].values, dtype=float)
         if px.ndim != 3 or px.shape[1:] != (det_spec["rows"], det_spec["cols"]):
             return dict(aux=auxs, **{"raise": f"shape:{px.shape}"})
         return dict(aux=auxs, pixel=[hx(px[i]) for i in range(px.shape[0])])
